@@ -20,7 +20,7 @@ from labtech.types import TaskResult
 
 from ..common import HarnessError, Result, Violation, pmap, silence_labtech
 from ..faults import LineInjector, RawLog, crash_states, dir_state, in_files, materialise, relog
-from ..savepath import CASES, good_run, mk_task, recovery, tmpdir, value_of
+from ..savepath import ALT, CASES, cache_class, good_run, mk_task, recovery, tmpdir, value_of
 from ..spec import FIXED_META
 from ..universe import WORLD
 
@@ -34,12 +34,15 @@ def record_log(case: str, overwrite: bool):
     LocalStorage(d)   # creates .gitignore before logging starts
     template = None
     if overwrite:
-        if good_run(d, case, 1) != value_of(case, 1):
-            raise HarnessError('preparation run failed')
+        # overwrite == 'foreign': the complete old entry was written by another cache class that shares
+        # key prefix and file names; it is no hit for the type's own cache class, so no bust_cache
+        with cache_class(case, ALT if overwrite == 'foreign' else None):
+            if good_run(d, case, 1) != value_of(case, 1):
+                raise HarnessError('preparation run failed')
         template = os.path.join(top, 'template')
         shutil.copytree(d, template)
     with RawLog(d) as rl:
-        v = good_run(d, case, 2, bust=overwrite)
+        v = good_run(d, case, 2, bust=(overwrite is True))
     if v != value_of(case, 2):
         raise HarnessError(f'logged save of {case} failed')
     log = relog(rl.log, d)
@@ -52,6 +55,8 @@ def record_log(case: str, overwrite: bool):
         # the code under test reaches the file system through an API the in-process layer does not
         # see: take the log from the kernel's side instead (no Python-level write boundaries then)
         shutil.rmtree(top, ignore_errors=True)
+        if overwrite == 'foreign':
+            return None, None, None    # (the strace path does not build this history; the scenario is skipped and counted)
         log, template, top, final = strace_log(case, overwrite)
         full = os.path.join(top, 'full')
         materialise(log, full, template)
@@ -161,9 +166,14 @@ def eval_states(args):
             dest = os.path.join(top, f's{i}')
             materialise(ops, dest, template)
             rec, rep = recovery(dest, case, ok)
+            if overwrite == 'foreign':
+                # the session whose cache class wrote the old entry looks at the same crash state
+                rec2, rep2 = recovery(dest, case, ok, observer_cache=ALT)
+                rec = list(rec) + [(k, f'[observer configured with the cache class that wrote the old entry] {m}') for k, m in rec2]
+                rep = rep or rep2
             n += 1
             cached += 1 if rep else 0
-            phase = 'overwrite' if overwrite else 'first-save'
+            phase = 'over-entry-of-other-cache-class' if overwrite == 'foreign' else 'overwrite' if overwrite else 'first-save'
             for key, msg in rec:
                 out.append((f'{key}:{phase}', f'{case} {phase} crash state {label} ({crash_class(ops)}): {msg}', i))
             shutil.rmtree(dest, ignore_errors=True)
@@ -500,11 +510,15 @@ def run(tier: str, seed: int) -> Result:
     tops = []
     samples = []
     work = []
+    foreign_skipped: list = []
     state_dirs: dict = {}
     try:
         for case in cases:
-            for ow in (False, True):
+            for ow in (False, True) + (('foreign',) if case in ('pickle-small', 'pickle-multi') else ()):
                 log, template, top = record_log(case, ow)
+                if log is None:
+                    foreign_skipped.append(case)
+                    continue
                 tops.append(top)
                 states = crash_states(log)
                 raw_ops = [op for op in log if op[0] != 'pywrite']
@@ -578,7 +592,7 @@ def run(tier: str, seed: int) -> Result:
         'evaluations': n_states + n_kills + n_same + n_main,
         'distinct_nontrivial': n_states,
         'rule': ('crash states = every prefix of the raw-operation log (mkdir/open-trunc/write/close/unlink/rmdir/rename) of a real save + every subset of a run of unlinks in one directory + 3 torn variants per write + flushed variant per '
-                 'Python-level write call; x {pickle small, json small, pickle multi-frame (+json multi thorough)} x {first save, overwrite}; each materialised and '
+                 'Python-level write call; x {pickle small, json small, pickle multi-frame (+json multi thorough)} x {first save, overwrite; pickle small / multi also: save over a complete entry that another cache class with the same key prefix wrote, judged by observers of either class}; each materialised and '
                  'checked by the recovery oracle (is_cached, cached_tasks, run_tasks on a fresh Lab); real SIGKILLs of a forked saver at traced lines must leave one '
                  'of the prefix states; plus histories on ONE Lab object over the real fork backend (cache, re-run with bust_cache whose worker SIGKILLs itself at save line k, then ask the same Lab), and the same history with a task type defined in the main script on the real spawn / fork backends; '
                  'distinct_nontrivial = materialised crash states'),
@@ -586,6 +600,7 @@ def run(tier: str, seed: int) -> Result:
         'real_kills': n_kills,
         'real_kill_states_matching_a_materialised_prefix': validated,
         'states_reported_cached': n_cached,
+        'other_cache_class_histories_skipped': foreign_skipped,
         'exhaustive': True,
     }
     return Result('C13', 'fault_enumeration', cov, assumptions=[
